@@ -651,6 +651,13 @@ func (w *Reconciler) handlePendingTasks(
 	for _, task := range tasks {
 		ref := task.GetTaskRef()
 
+		// Prefer the TaskRef in the Job's status, which retains the timestamps that the
+		// task no longer reports by itself (e.g. the start time of a container that is
+		// waiting to be restarted).
+		if recorded := jobutil.FindTaskRef(rj, task); recorded != nil {
+			ref = *recorded
+		}
+
 		// Skip if task already finished.
 		if ts := ref.FinishTimestamp; !ts.IsZero() {
 			continue
